@@ -322,6 +322,9 @@ func (in *Interp) lockEvent(kind string) {
 }
 
 func (in *Interp) foreignWrite(c *Cell, v Value) {
+	if in.syncDepth > 0 {
+		return
+	}
 	if t, ok := v.(*Term); ok {
 		if o, ok := c.V.(*Term); ok && o == t {
 			return // value unchanged
